@@ -2,7 +2,7 @@
 from vf import core
 from . import remoteclient as rc
 
-FORMULAS = {'NotifyInOrder', 'ReadySetsNext', 'NotifyAllInOrder', 'BurstInOrder', 'ResumePointSurvives', 'NothingElseDelivered', 'HandlersAgree', 'NoPanic'}
+FORMULAS = {'NotifyInOrder', 'ReadySetsNext', 'NotifyAllInOrder', 'BurstInOrder', 'FromDeclaredId', 'ResumePointSurvives', 'NothingElseDelivered', 'HandlersAgree', 'NoPanic'}
 
 
 def main(argv):
